@@ -120,6 +120,16 @@ def _cds_case(repo, it, S, spec):
         got = [[to_chrom(p) for p in loc_positions(c)] for c in v]
         if got != want:
             out.append(("chunk codons " + cat, f"{desc}: chunk-relative codons (in chromosome coordinates) = {got}; whole-chromosome codons fully inside the chunk: {want}", q("chunk_relative_codon_locations").qual))
+    # the deprecated spelling lists what the chunk-relative scan lists, on a chunk as well
+    if repo.has_fn(f"{CDS}.scan_codon_locations") and inside_any:
+        n += 1
+        kd, vd = run(it, q("scan_codon_locations"), [], {}, mk_cds(it, exons, S[sn], frames, pk))
+        kc, vc = run(it, q("scan_chunk_relative_codon_locations"), [], {}, mk_cds(it, exons, S[sn], frames, pk))
+        gd = [[to_chrom(p) for p in loc_positions(c)] for c in vd] if kd == "ok" else vd
+        gc = [[to_chrom(p) for p in loc_positions(c)] for c in vc] if kc == "ok" else vc
+        if (kd, gd) != (kc, gc):
+            out.append(("scan_codon_locations (deprecated spelling) on a chunk", f"{desc}: scan_codon_locations() -> {kd}:{gd}; scan_chunk_relative_codon_locations() "
+                        f"-> {kc}:{gc}", q("scan_codon_locations").qual))
     # the chromosome-level answers of the same object once its chunk-relative answers exist (they are memoised side by side)
     if repo.has_fn(f"{CDS}.num_chunk_relative_codons"):
         run(it, q("num_chunk_relative_codons"), [], {}, part)
@@ -337,6 +347,20 @@ def _tx_case(repo, it, S, spec):
     wseq = bases(inside, sn)
     if k != "ok" or v.fields["sequence"] != wseq:
         out.append(("spliced sequence", f"{desc}: get_spliced_sequence on the chunk -> {k}:{v.fields['sequence'] if k == 'ok' else v}; chromosome stretch is {wseq!r}", fs.qual))
+    # the unspliced sequences of the chunk view: the chromosome stretch under the part of the interval that is on the chunk, plus
+    # strand for the reference sequence, transcription orientation for the genomic sequence
+    lo_, hi_ = min(inside), max(inside) + 1
+    stretch = GENOME[lo_:hi_]
+    for acc, wantseq in (("get_reference_sequence", stretch), ("get_genomic_sequence", stretch if sn == "PLUS" else bases(list(range(hi_ - 1, lo_ - 1, -1)), "MINUS"))):
+        if cstrand != "PLUS" or not repo.has_fn(f"gene.interval:AbstractFeatureInterval.{acc}"):
+            continue
+        n += 1
+        fa = repo.fn(f"gene.interval:AbstractFeatureInterval.{acc}")
+        k, v = run(it, fa, [], {}, part)
+        gotseq = v.fields.get("sequence") if k == "ok" and isinstance(v, Obj) else v
+        if k != "ok" or gotseq != wantseq:
+            out.append((acc, f"{desc}: {acc}() on the chunk -> {k}:{gotseq}; the chromosome stretch [{lo_},{hi_}) "
+                        f"{'in transcription orientation ' if 'genomic' in acc else ''}is {wantseq!r}", fa.qual))
     n += 1
     fl = repo.fn("gene.interval:AbstractInterval.lift_over_to_first_ancestor_of_type")
     k, v = run(it, fl, [], {}, part)
